@@ -1831,3 +1831,296 @@ theorem runH_src (v : Variant) (cfg : Cfg) (src : Bytes) : ∀ (ms : List Mat) (
 
 
 end TsVerif.C18
+
+/-! ## Spec decoder -/
+namespace TsVerif.C18
+
+
+theorem decodeStep_stepAt {a : Nat} {rest : Bytes} {cp n : Nat} (h : decodeStep (a :: rest) = some (cp, n)) :
+    stepAt a rest = .char n ∧ units n = (if cp ≥ 0x10000 then 2 else 1) := by
+  cases rest with
+  | nil =>
+    simp only [decodeStep] at h
+    unfold stepAt width units
+    (repeat' split at h) <;> simp only [Option.some.injEq, Prod.mk.injEq, reduceCtorEq] at h <;> (try (obtain ⟨h1, h2⟩ := h; subst h2)) <;> simp_all <;> omega
+  | cons r1 rest =>
+    cases rest with
+    | nil =>
+      simp only [decodeStep] at h
+      unfold stepAt width units
+      (repeat' split at h) <;> simp only [Option.some.injEq, Prod.mk.injEq, reduceCtorEq] at h <;> (try (obtain ⟨h1, h2⟩ := h; subst h2)) <;> simp_all [second3ok, second4ok, isCont] <;> first | omega | (refine ⟨?_, by omega⟩; (repeat' split) <;> first | rfl | (exfalso; omega))
+    | cons r2 rest =>
+      cases rest with
+      | nil =>
+        simp only [decodeStep] at h
+        unfold stepAt width units
+        (repeat' split at h) <;> simp only [Option.some.injEq, Prod.mk.injEq, reduceCtorEq] at h <;> (try (obtain ⟨h1, h2⟩ := h; subst h2)) <;> simp_all [second3ok, second4ok, isCont] <;> first | omega | (refine ⟨?_, by omega⟩; (repeat' split) <;> first | rfl | (exfalso; omega))
+      | cons r3 r4 =>
+        simp only [decodeStep] at h
+        unfold stepAt width units
+        (repeat' split at h) <;> simp only [Option.some.injEq, Prod.mk.injEq, reduceCtorEq] at h <;> (try (obtain ⟨h1, h2⟩ := h; subst h2)) <;> simp_all [second3ok, second4ok, isCont] <;> first | omega | (refine ⟨?_, by omega⟩; (repeat' split) <;> first | rfl | (exfalso; omega))
+
+
+theorem decode_scan : ∀ (fuel : Nat) (b : Bytes) (cps : List Nat), decodeUtf8 fuel b = some cps →
+    (scan b).err = none ∧ (scan b).u16 = utf16Units cps := by
+  intro fuel
+  induction fuel with
+  | zero =>
+    intro b cps h
+    cases b with
+    | nil => simp [decodeUtf8] at h; subst h; simp [scan, utf16Units]
+    | cons a rest => simp [decodeUtf8] at h
+  | succ fuel ih =>
+    intro b cps h
+    cases b with
+    | nil => simp [decodeUtf8] at h; subst h; simp [scan, utf16Units]
+    | cons a rest =>
+      simp only [decodeUtf8] at h
+      cases hd : decodeStep (a :: rest) with
+      | none => simp [hd] at h
+      | some x =>
+        obtain ⟨cp, n⟩ := x
+        simp only [hd] at h
+        cases ht : decodeUtf8 fuel (rest.drop (n - 1)) with
+        | none => simp [ht] at h
+        | some tl =>
+          simp [ht] at h
+          subst h
+          obtain ⟨hs, hu⟩ := decodeStep_stepAt hd
+          obtain ⟨e1, e2⟩ := ih _ _ ht
+          rw [scan_cons_char hs]
+          refine ⟨e1, ?_⟩
+          simp only [e2, hu, utf16Units, List.map_cons, List.sum_cons]
+
+/-- `utf16_len` (pinned and repaired port) of a well-formed byte string = UTF-16 units of its decoding. -/
+theorem utf16Len_decode (fuel : Nat) (b : Bytes) (cps : List Nat) (h : decodeUtf8 fuel b = some cps) :
+    utf16Len b = utf16Units cps ∧ utf16LenF b = utf16Units cps ∧ utf16Spec b = utf16Units cps := by
+  obtain ⟨e1, e2⟩ := decode_scan fuel b cps h
+  have hf : utf16LenF b = utf16Spec b := by unfold utf16LenF; rw [lossyF_eq_spec]; simp
+  rw [hf, utf16Len_valid b e1, utf16Spec_valid b e1, e2]
+  exact ⟨rfl, rfl, rfl⟩
+
+theorem decode_valid (fuel : Nat) (b : Bytes) (cps : List Nat) (h : decodeUtf8 fuel b = some cps) :
+    validUtf8 b = true := by
+  simp [validUtf8, (decode_scan fuel b cps h).1]
+
+
+end TsVerif.C18
+
+/-! ## Character boundaries of the line range -/
+namespace TsVerif.C18
+
+
+theorem stepAt_char_prefix {x n : Nat} {rest : Bytes} (z : Bytes) (h : stepAt x rest = .char n) :
+    stepAt x (rest.take (n - 1) ++ z) = .char n := by
+  unfold stepAt at h ⊢
+  rcases rest with _ | ⟨r1, _ | ⟨r2, _ | ⟨r3, r4⟩⟩⟩ <;> simp only [List.length_cons, List.length_nil] at h ⊢ <;>
+    (repeat' split at h) <;> (try cases h) <;> simp_all
+
+theorem stepAt_invalid_append {x k : Nat} {rest : Bytes} (z : Bytes) (h : stepAt x rest = .invalid k) :
+    stepAt x (rest ++ z) = .invalid k := by
+  unfold stepAt at h ⊢
+  rcases rest with _ | ⟨r1, _ | ⟨r2, _ | ⟨r3, r4⟩⟩⟩ <;> simp only [List.nil_append, List.cons_append] at h ⊢ <;>
+    (repeat' split at h) <;> (try cases h) <;> simp_all
+
+def Step.isInvalid : Step → Bool
+  | .invalid _ => true
+  | _ => false
+
+theorem stepAt_incomplete_ascii {x c : Nat} {rest : Bytes} (hc : c < 0x80) (h : stepAt x rest = .incomplete) :
+    (stepAt x (rest ++ [c])).isInvalid = true := by
+  unfold stepAt at h ⊢
+  rcases rest with _ | ⟨r1, _ | ⟨r2, _ | ⟨r3, r4⟩⟩⟩ <;> simp only [List.nil_append, List.cons_append] at h ⊢ <;>
+    (repeat' split at h) <;> (try cases h) <;> simp_all [isCont, second3ok, second4ok] <;>
+    (repeat' split) <;> simp_all [Step.isInvalid] <;> omega
+
+
+theorem scan_cons_invalid {x k : Nat} {rest : Bytes} (h : stepAt x rest = .invalid k) :
+    (scan (x :: rest)).err = some (some k) := by rw [scan]; simp [h]
+
+theorem scan_snoc_ascii (c : Nat) (hc : c < 0x80) (x : Bytes) (h : (scan (x ++ [c])).err = none) :
+    (scan x).err = none := by
+  fun_induction scan x with
+  | case1 => rfl
+  | case2 a rest n hs r ih =>
+    have ha := stepAt_char_append [c] hs
+    rw [List.cons_append, scan_cons_char ha.1, List.drop_append_of_le_length ha.2.1] at h
+    exact ih h
+  | case3 a rest k hs =>
+    rw [List.cons_append, scan_cons_invalid (stepAt_invalid_append [c] hs)] at h; simp at h
+  | case4 a rest hs =>
+    have := stepAt_incomplete_ascii hc hs
+    cases hst : stepAt a (rest ++ [c]) with
+    | char n => simp [hst, Step.isInvalid] at this
+    | incomplete => simp [hst, Step.isInvalid] at this
+    | invalid k => rw [List.cons_append, scan_cons_invalid hst] at h; simp at h
+
+theorem valid_of_append_ascii (w : Bytes) : ∀ (x : Bytes), (∀ c ∈ w, c < 0x80) →
+    validUtf8 (x ++ w) = true → validUtf8 x = true := by
+  induction w with
+  | nil => intro x _ h; simpa using h
+  | cons c w ih =>
+    intro x hw h
+    have h' : validUtf8 ((x ++ [c]) ++ w) = true := by simpa using h
+    have := ih (x ++ [c]) (fun d hd => hw d (List.mem_cons_of_mem _ hd)) h'
+    simp only [validUtf8, Option.isNone_iff_eq_none] at this ⊢
+    exact scan_snoc_ascii c (hw c List.mem_cons_self) x this
+
+theorem ascii_valid (l : Bytes) (h : ∀ c ∈ l, c < 0x80) : validUtf8 l = true := by
+  induction l with
+  | nil => simp [validUtf8, scan]
+  | cons a l ih =>
+    have ha : a < 0x80 := h a List.mem_cons_self
+    have hs : stepAt a l = .char 1 := by simp [stepAt, ha]
+    have := ih (fun c hc => h c (List.mem_cons_of_mem _ hc))
+    simp only [validUtf8, Option.isNone_iff_eq_none] at this ⊢
+    rw [scan_cons_char hs]; simpa using this
+
+theorem scan_take_valid (w : Bytes) : validUtf8 (w.take (scan w).validUpTo) = true := by
+  fun_induction scan w with
+  | case1 => simp [validUtf8, scan]
+  | case2 a rest n hs r ih =>
+    have ha := stepAt_char_append [] hs
+    have hn : n = (n - 1) + 1 := by omega
+    simp only [r]
+    have : (a :: rest).take (n + (scan (rest.drop (n - 1))).validUpTo) =
+        a :: (rest.take (n - 1) ++ (rest.drop (n - 1)).take (scan (rest.drop (n - 1))).validUpTo) := by
+      rw [hn, Nat.add_right_comm, List.take_succ_cons, List.take_add]
+      simp
+    rw [this]
+    have hp := stepAt_char_prefix ((rest.drop (n - 1)).take (scan (rest.drop (n - 1))).validUpTo) hs
+    simp only [validUtf8, Option.isNone_iff_eq_none] at ih ⊢
+    rw [scan_cons_char hp]
+    have hlen : (rest.take (n - 1)).length = n - 1 := by rw [List.length_take]; omega
+    rw [List.drop_append_of_le_length (by omega), List.drop_of_length_le (by omega)]
+    simpa using ih
+  | case3 a rest k hs => simp [validUtf8, scan]
+  | case4 a rest hs => simp [validUtf8, scan]
+
+theorem isWs_ascii {c : Nat} (h : isWs c = true) : c < 0x80 := by
+  simp [isWs] at h; omega
+
+theorem rev_dropWhile_split (p : Nat → Bool) (l : Bytes) :
+    l = (l.reverse.dropWhile p).reverse ++ (l.reverse.takeWhile p).reverse ∧
+    l.take (l.reverse.dropWhile p).length = (l.reverse.dropWhile p).reverse := by
+  have h : l.reverse = l.reverse.takeWhile p ++ l.reverse.dropWhile p := List.takeWhile_append_dropWhile.symm
+  have h2 : l = (l.reverse.dropWhile p).reverse ++ (l.reverse.takeWhile p).reverse := by
+    have h3 : l.reverse.reverse = (l.reverse.takeWhile p ++ l.reverse.dropWhile p).reverse := by rw [← h]
+    rw [List.reverse_reverse, List.reverse_append] at h3
+    exact h3
+  refine ⟨h2, ?_⟩
+  conv => lhs; arg 2; rw [h2]
+  rw [← List.length_reverse (as := List.dropWhile p l.reverse)]
+  exact List.take_left' rfl
+
+
+/-- The bytes of the `lineSpec` range, and their well-formedness. -/
+theorem specCore_valid (rest : Bytes) (limit : Nat)
+    (hv : validUtf8 (rest.takeWhile (· != 10)) = true) :
+    validUtf8 ((rest.drop (specCore rest limit).1).take (specCore rest limit).2) = true := by
+  have hsplit : rest.takeWhile (· != 10) ++ rest.dropWhile (· != 10) = rest := List.takeWhile_append_dropWhile
+  simp only [specCore]
+  generalize rest.takeWhile (· != 10) = line at *
+  generalize rest.dropWhile (· != 10) = tail at *
+  subst hsplit
+  have hleadle : (line.takeWhile isWs).length ≤ line.length := length_takeWhile_le' _ _
+  have hlsplit : line.takeWhile isWs ++ line.dropWhile isWs = line := List.takeWhile_append_dropWhile
+  have hbody : line.drop (line.takeWhile isWs).length = line.dropWhile isWs := by
+    conv => lhs; arg 2; rw [← hlsplit]
+    exact List.drop_left' rfl
+  rw [List.drop_append_of_le_length hleadle, hbody]
+  have hbv : validUtf8 (line.dropWhile isWs) = true := by
+    apply valid_suffix (line.takeWhile isWs)
+    · exact ascii_valid _ (fun c hc => isWs_ascii (mem_takeWhile_sat hc))
+    · rw [hlsplit]; exact hv
+  generalize line.dropWhile isWs = body at *
+  -- the cut is a well-formed prefix of the body
+  generalize hcut : (if (decide (line.length < (line ++ tail).length) && decide (body.length < limit)) = true then body
+      else (body.take limit).take (scan (body.take limit)).validUpTo) = cut
+  have hcv : validUtf8 cut = true ∧ ∃ m, cut = body.take m := by
+    rw [← hcut]
+    split
+    · exact ⟨hbv, body.length, by simp⟩
+    · exact ⟨scan_take_valid _, _, by rw [List.take_take]⟩
+  obtain ⟨hcv, m, hm⟩ := hcv
+  obtain ⟨hsp, htk⟩ := rev_dropWhile_split isWs cut
+  have hkept : (cut.reverse.dropWhile isWs).length ≤ cut.length := by
+    have := length_dropWhile_le' isWs cut.reverse; simpa using this
+  have hx : validUtf8 (cut.reverse.dropWhile isWs).reverse = true := by
+    apply valid_of_append_ascii (cut.reverse.takeWhile isWs).reverse
+    · intro c hc
+      exact isWs_ascii (mem_takeWhile_sat (List.mem_reverse.mp hc))
+    · rw [← hsp]; exact hcv
+  have hcl : cut.length ≤ body.length := by rw [hm, List.length_take]; omega
+  have : (body ++ tail).take (cut.reverse.dropWhile isWs).length = (cut.reverse.dropWhile isWs).reverse := by
+    rw [List.take_append_of_le_length (by omega), ← htk, hm, List.take_take]
+    congr 1
+    rw [hm, List.length_take] at hkept
+    omega
+  rw [this]; exact hx
+
+
+theorem takeWhile_len_le_of_neg {p : Nat → Bool} : ∀ (l : Bytes) (j b : Nat), l[j]? = some b → p b = false →
+    (l.takeWhile p).length ≤ j := by
+  intro l
+  induction l with
+  | nil => intro j b h; simp at h
+  | cons a l ih =>
+    intro j b h hb
+    cases j with
+    | zero => simp at h; subst h; simp [List.takeWhile_cons, hb]
+    | succ j =>
+      simp at h
+      by_cases hp : p a = true
+      · simp [List.takeWhile_cons, hp]; exact ih j b h hb
+      · simp [List.takeWhile_cons, hp]
+
+theorem lt_rev_dropWhile_of_neg (p : Nat → Bool) (l : Bytes) (i b : Nat) (h : l[i]? = some b) (hb : p b = false) :
+    i < (l.reverse.dropWhile p).length := by
+  obtain ⟨hsp, _⟩ := rev_dropWhile_split p l
+  by_cases hlt : i < (l.reverse.dropWhile p).length
+  · exact hlt
+  · exfalso
+    rw [hsp, List.getElem?_append_right (by simp; omega)] at h
+    have hm : b ∈ (l.reverse.takeWhile p).reverse := List.mem_of_getElem? h
+    have := mem_takeWhile_sat (List.mem_reverse.mp hm)
+    rw [hb] at this; exact absurd this (by simp)
+
+/-- The untrimmed cut of `lineSpec` (a prefix of the row without its leading blanks). -/
+def cutOf (rest : Bytes) (limit : Nat) : Bytes :=
+  let line := rest.takeWhile (· != 10)
+  let body := line.drop (line.takeWhile isWs).length
+  if decide (line.length < rest.length) && decide (body.length < limit) then body
+  else (body.take limit).take (scan (body.take limit)).validUpTo
+
+theorem specCore_contains (rest : Bytes) (limit j b : Nat)
+    (hrow : j < (rest.takeWhile (· != 10)).length) (hb : rest[j]? = some b) (hnw : isWs b = false)
+    (hcut : j < (specCore rest limit).1 + (cutOf rest limit).length) :
+    (specCore rest limit).1 ≤ j ∧ j < (specCore rest limit).1 + (specCore rest limit).2 := by
+  have hsplit : rest.takeWhile (· != 10) ++ rest.dropWhile (· != 10) = rest := List.takeWhile_append_dropWhile
+  have hline : (rest.takeWhile (· != 10))[j]? = some b := by
+    rw [← hsplit, List.getElem?_append_left hrow] at hb; exact hb
+  simp only [specCore, cutOf] at hcut ⊢
+  generalize rest.takeWhile (· != 10) = line at *
+  have hlead := takeWhile_len_le_of_neg line j b hline hnw
+  refine ⟨hlead, ?_⟩
+  generalize hc : (if (decide (line.length < rest.length) && decide ((line.drop (line.takeWhile isWs).length).length < limit)) = true
+      then line.drop (line.takeWhile isWs).length
+      else ((line.drop (line.takeWhile isWs).length).take limit).take
+        (scan ((line.drop (line.takeWhile isWs).length).take limit)).validUpTo) = cut at hcut ⊢
+  have hm : ∃ m, cut = (line.drop (line.takeWhile isWs).length).take m := by
+    rw [← hc]; split
+    · exact ⟨_, (List.take_length).symm⟩
+    · exact ⟨_, by rw [List.take_take]⟩
+  obtain ⟨m, hm⟩ := hm
+  have hjc : cut[j - (line.takeWhile isWs).length]? = some b := by
+    have hlt : j - (line.takeWhile isWs).length < cut.length := by omega
+    rw [hm] at hlt ⊢
+    rw [List.getElem?_take_of_lt (by rw [List.length_take] at hlt; omega), List.getElem?_drop]
+    have : (line.takeWhile isWs).length + (j - (line.takeWhile isWs).length) = j := by omega
+    rw [this]; exact hline
+  have := lt_rev_dropWhile_of_neg isWs cut _ b hjc hnw
+  omega
+
+
+end TsVerif.C18
